@@ -12,6 +12,11 @@ import (
 // SwitchStmt.Cases -> *SwitchCaseStmt with its own Exprs and Stmt); the
 // grandchildren created that way are appended to *extra.
 func zzLeafMakers(n int, absent bool, extra *[]interface{}) *zzMakers {
+	return zzLeafMakersP(n, func(string) bool { return absent }, extra)
+}
+
+// zzLeafMakersP: presence of every optional child decided by skip.
+func zzLeafMakersP(n int, skip func(field string) bool, extra *[]interface{}) *zzMakers {
 	return &zzMakers{
 		Expr: func(field string, i int) ast.Expr { return &ast.IdentExpr{Lit: "x"} },
 		Stmt: func(field string, i int) ast.Stmt {
@@ -38,7 +43,7 @@ func zzLeafMakers(n int, absent bool, extra *[]interface{}) *zzMakers {
 			return o
 		},
 		N:    func(field string) int { return n },
-		Skip: func(field string) bool { return absent },
+		Skip: skip,
 	}
 }
 
@@ -74,10 +79,12 @@ func zzIndexOf(log []interface{}, x interface{}) (first, count int) {
 // Walk returns nil.
 func zzWalkKind(k int) {
 	kind := zzKinds[k]
-	n := zz.Choose(3)           // list fields have 0..2 elements
-	absent := zz.Choose(2) == 1 // optional single children present / nil
+	n := zz.Choose(3) // list fields have 0..2 elements
+	// every optional single child is independently present or nil (x[:hi] has
+	// a nil Begin and a non-nil End)
+	skip := func(field string) bool { return zz.Choose(2) == 1 }
 	var kids, extra []interface{}
-	root := zzBuild(k, zzLeafMakers(n, absent, &extra), &kids)
+	root := zzBuild(k, zzLeafMakersP(n, skip, &extra), &kids)
 	stmt := zzWrap(root, zzKindCat[k])
 	var log []interface{}
 	err := Walk(stmt, func(x interface{}) error {
